@@ -240,6 +240,77 @@ def _predicate_names(ctx):
     ctx.require_count("R28.5 container predicates", n, 12)
 
 
+def _inv_batch(it, a, k):
+    """linalg.inv of a batch of 3x3 matrices of rational forms (adjugate / determinant)"""
+    m = a[0]
+    if not (isinstance(m, NdArr) and m.shape[-2:] == (3, 3) and not m.sp):
+        raise AnalysisError(f"linalg.inv of {m!r}")
+    out = []
+    for b in range(len(m.data) // 9):
+        out += list(_inv3([to_rat(x) for x in m.data[b * 9 : b * 9 + 9]]))
+    return NdArr(m.shape, out)
+
+
+def _sort_and_inverse(ctx):
+    """(a) the painter's order is the placement order alone, list order breaking ties, whatever the kind of object;
+    (b) _invert_property is the entry-wise reciprocal on the 1- and 3-component tiers and the matrix inverse (not its
+    transpose) on the 9-component tier."""
+    ix = ctx.index
+    f = ix.function(f"{INIT}._init_arrays")
+    stmt = None
+    for st in f.node.body:
+        if isinstance(st, ast.Assign) and isinstance(st.value, ast.Call) and getattr(st.value.func, "id", None) == "sorted" and "static_material_objects" in ast.unparse(st.value):
+            stmt = st
+    if stmt is None or not isinstance(stmt.targets[0], ast.Name):
+        raise AnalysisError("_init_arrays: cannot locate the statement that sorts the static material objects")
+    U = ix.cls("fdtdx.objects.static_material.static.UniformMaterialObject")
+    M = ix.cls("fdtdx.objects.static_material.static.StaticMultiMaterialObject")
+    kinds = [c for c in ix.subclasses(M) if c is not M][:1] or [M]
+    S = kinds[0]
+    lists = [
+        [("ball", S, 0), ("box", U, 0)],
+        [("box", U, 0), ("ball", S, 0)],
+        [("ball", S, 1), ("box", U, 0), ("lid", U, 1), ("rod", S, 0)],
+        [("a", U, 2), ("b", S, 2), ("c", U, -1), ("d", S, 2), ("e", U, 2)],
+    ]
+    bad = []
+    for spec in lists:
+        it = ctx.fresh_interp()
+        objs = [Obj(cls, dict(name=n, placement_order=o), n) for n, cls, o in spec]
+        env = absint.Env(parent=it.module_env(ix.module(INIT)), vars={"objects": Obj(None, {"static_material_objects": objs}, "objects")})
+        try:
+            it.exec_stmt(stmt, env)
+        except Raised as r:
+            raise AnalysisError(f"_init_arrays: the sorting statement raises: {r}")
+        got = [o.attrs["name"] for o in env.lookup(stmt.targets[0].id)[1]]
+        want = [n for n, _, _ in sorted(spec, key=lambda t: t[2])]
+        if got != want:
+            bad.append((got, want))
+    ctx.ob("R28.6", "_init_arrays:painting-order", not bad, "objects are painted in ascending placement order and, within one order, in list order — uniform blocks and shaped multi-material objects alike (4 mixed lists)", bad[:2], "stable sort by placement_order")
+    g = ix.function(f"{INIT}._invert_property")
+    ctx.unit(g.where())
+    for tier in (1, 3, 9):
+        it = ctx.fresh_interp()
+        it.ext_handlers["np.linalg.inv"] = _inv_batch
+        arr = NdArr((tier, 1, 1, 1), [Rat.atom(("m", i)) for i in range(tier)])
+        try:
+            inv = it.call(it.closure_of(g), [arr], {})
+        except Raised as r:
+            raise AnalysisError(f"_invert_property raises on a {tier}-component array: {r}")
+        ok = isinstance(inv, NdArr) and inv.shape == (tier, 1, 1, 1)
+        detail = None
+        if ok and tier < 9:
+            ok = all((to_rat(v) * Rat.atom(("m", i))).equals(1) for i, v in enumerate(inv.data))
+        elif ok:
+            for i in range(3):
+                for j in range(3):
+                    p_ = sum((Rat.atom(("m", 3 * i + k_)) * to_rat(inv.data[3 * k_ + j]) for k_ in range(3)), Rat.const(0))
+                    if not p_.equals(1 if i == j else 0):
+                        ok = False
+                        detail = detail or (f"(M inv)[{i}][{j}]", p_.fmt()[:160])
+        ctx.ob("R28.7", f"_invert_property[{tier} components]", ok, "entry-wise reciprocal on the isotropic / diagonal tiers; on the full tier the row-major 3x3 matrix inverse of a general (non-symmetric) tensor: M inv(M) = 1", detail or getattr(inv, "shape", inv), "M inv = 1")
+
+
 def _job(ctx, payload):
     _scene_job(ctx, payload)
 
@@ -250,6 +321,7 @@ def run(ctx):
     scenes = _scenes()
     err = run_jobs(ctx, "sa.checks.c28", "_job", scenes, [s[0] for s in scenes])
     _predicate_names(ctx)
+    _sort_and_inverse(ctx)
     if err is not None:
         raise AnalysisError(err)
     ctx.require_count("C28", len(ctx.obligations), 50)
